@@ -1,7 +1,7 @@
 //! unit: u10
 //! properties: C10
 //! note: narrow claim for C10 (restart from a stale manager): blocked monitor updates that the loaded monitor already contains are dropped and newer ones kept; the close update generated for a channel whose manager is older than its monitor takes the update id right after the monitor's latest; an HTLC the stale manager still holds is looked up in the monitor by its source. Further kernel statements of C10's mechanisms are under contract in other units and tagged C10 there: the manager-older-than-monitor test (u05c), re-registering RAA blockers on reload (u02b), what FundedChannel::write leaves out (u12b), forgetting the peer's uncommitted updates (u01j)
-//! trusted: R15 (deep slices): FundedChannel::on_startup_drop_completed_blocked_mon_updates_through (the retain closure body, log statement removed R3), ChannelManager::from_channel_manager_data (the expression of the close update's id; the test that matches a manager HTLC against the monitor's outbound HTLCs), verbatim as functions; PendingUpdate / HTLCSource are skeletons; HTLCSource equality is structural
+//! trusted: R15 (deep slices): FundedChannel::on_startup_drop_completed_blocked_mon_updates_through (the retain closure body, log statement removed R3), ChannelManager::from_channel_manager_data (the expression of the close update's id; the test that matches a manager HTLC against the monitor's outbound HTLCs), reconcile_pending_htlcs_with_monitor (the body of the closure that decides which held forwards / intercepted HTLCs are purged), verbatim as functions; PendingUpdate / HTLCSource are skeletons; HTLCSource equality is structural
 //! assume: nothing here decides the crash-point quantifier of C10 (every prefix of the sequence of durable writes): that is a whole-history statement outside function contracts; only the listed statements of the recovery path are decided
 use vstd::prelude::*;
 verus! {
@@ -40,6 +40,24 @@ impl PartialEq for HTLCSource { #[verifier::external_body] fn eq(&self, o: &HTLC
 //@ret r
 //@ensures P C10 an-htlc-of-the-stale-manager-counts-as-known-to-the-monitor-only-if-the-monitor-holds-that-very-htlc
     r == (*channel_htlc_source == monitor_htlc_source),
+//@end
+#[derive(Clone, Copy)] pub struct OutPoint { pub txid: u64, pub index: u16 }
+impl vstd::std_specs::cmp::PartialEqSpecImpl for OutPoint { open spec fn obeys_eq_spec() -> bool { true } open spec fn eq_spec(&self, other: &OutPoint) -> bool { *self == *other } }
+impl PartialEq for OutPoint { #[verifier::external_body] fn eq(&self, o: &OutPoint) -> (r: bool) { unimplemented!() } }
+pub struct PendingAddHTLCInfo { pub prev_funding_outpoint: OutPoint, pub prev_htlc_id: u64 }
+pub struct HTLCPreviousHopData { pub outpoint: OutPoint, pub htlc_id: u64 }
+//@extract lightning/src/ln/channelmanager.rs :: fn reconcile_pending_htlcs_with_monitor
+//@slice R15
+    let pending_forward_matches_htlc = |info: &PendingAddHTLCInfo| $e:seq;
+//@with
+    fn pending_forward_is_the_monitors_htlc(info: &PendingAddHTLCInfo, prev_hop_data: &HTLCPreviousHopData) -> bool { $e }
+//@ret r
+//@ensures P C10 on-restart-a-held-forward-is-purged-only-if-it-is-the-very-htlc-same-inbound-channel-and-id-that-the-closed-channels-monitor-took-over
+    r == (info.prev_funding_outpoint == prev_hop_data.outpoint && info.prev_htlc_id == prev_hop_data.htlc_id),
+//@mutant any_inbound_channels_htlc_with_that_id_purged
+    info.prev_funding_outpoint == prev_hop_data.outpoint && info.prev_htlc_id == prev_hop_data.htlc_id
+//@with
+    info.prev_htlc_id == prev_hop_data.htlc_id
 //@end
 pub struct MonitorStub { pub latest: u64 }
 impl MonitorStub { #[verifier::external_body] pub fn get_latest_update_id(&self) -> (r: u64) ensures r == self.latest { unimplemented!() } }
